@@ -1,6 +1,7 @@
 package main
 
 import (
+	"go/types"
 	"fmt"
 	"go/token"
 	"strings"
@@ -21,6 +22,7 @@ func init() {
 			{ID: "C19.R1", Min: 2, Doc: "lockset: every access to package variables validate.m and validate.h outside init happens with validate.lock held", Run: c19r1},
 			{ID: "C19.R2", Min: 2, Doc: "atomic check-and-set: in Ordered one Lock dominates lookup and update and no explicit Unlock can run between them; the same holds for hash Write → Sum64 → Reset", Run: c19r2},
 			{ID: "C19.R3", Min: 3, Doc: "strictness by path enumeration of Ordered: update only on the true edge of ts > old (normalised), stored value = ts parameter, update key = lookup key, nil result; other paths: no update, non-nil error", Run: c19r3},
+			{ID: "C19.R5", Min: 1, Doc: "the validate_order setting survives table changes: no TableConfig value is assembled field by field with fields left out (a copy helper that forgets Validate_order silently switches the order check off after the next runtime change)", Run: c19r5},
 			{ID: "C19.R4", Min: 3, Doc: "gate placement by path enumeration of the Dispatcher implementation + argument provenance of the Ordered call", Run: c19r4},
 		},
 	})
@@ -443,5 +445,44 @@ func c19r4(c *Check) {
 				}
 			}
 		})
+	}
+}
+
+func c19r5(c *Check) { checkTableConfigLiterals(c) }
+
+// checkTableConfigLiterals: every TableConfig built as a composite literal sets all of its fields.
+func checkTableConfigLiterals(c *Check) {
+	named := c.P.Named("table", "TableConfig")
+	bad := incompleteLiterals(c.P, named)
+	n := 0
+	for _, fn := range c.P.Funcs {
+		allInstrs(fn, func(in ssa.Instruction) {
+			al, ok := in.(*ssa.Alloc)
+			if !ok || al.Comment != "complit" {
+				return
+			}
+			if pt, ok := al.Type().(*types.Pointer); !ok || !types.Identical(pt.Elem(), named) {
+				return
+			}
+			nStores := 0
+			for _, r := range *al.Referrers() {
+				if fa, ok := r.(*ssa.FieldAddr); ok {
+					nStores += len(*fa.Referrers())
+				}
+			}
+			if nStores == 0 {
+				return // TableConfig{} returned next to an error
+			}
+			n++
+			key := FuncName(fn) + " TableConfig literal sets every field"
+			if miss, isBad := bad[in]; isBad {
+				c.Violate(key, c.At(in), "a table configuration is assembled without the fields "+strings.Join(miss, ", ")+": a copy made this way silently resets those settings (e.g. validate_order off, validation levels back to their zero value) at the next runtime change")
+			} else {
+				c.Hold(key, c.At(in), "all fields set")
+			}
+		})
+	}
+	if n == 0 {
+		anchorFail("no TableConfig composite literal found")
 	}
 }
